@@ -10,7 +10,9 @@
      sig.recover_digest compact digest   -> OK:K;<len>;<pubkey> | OK:E
      sig.sign_recover_digest key comp msg hash rk digest -> OK:<same>;<pubkey> | OK:E
      sig.sign_recover key comp msg hash rk msg2 hash2 -> OK:<same>;<pubkey> | OK:E
-     sig.compact_der der info            -> OK:<65 bytes>            (object without recovery info; info = n | <recid><c>)
+     sig.cross signer key comp msg hash rk aux route entry -> OK:<same>;<pubkey> | OK:E   (every signing entry point through
+                        recovery: route mem | cmp, entry m | d; spec = the signer's key in the signer's form)
+     sig.compact_der der info            -> OK:<65 bytes>           (object without recovery info; info = n | <recid><c>)
      sig.signed key comp msg hash rk info msg2 hash2 -> OK:<65 bytes>;<K<pubkey>|E>;<v>   (the signer's in-memory object)
      sig.recover_der der msg hash        -> OK:E;E                   (recovery without recovery info)
      sighashsig.roundtrip r s flag       -> OK:<bytes>;<bytes'>
